@@ -57,7 +57,9 @@ def run(pid):
             grouped[json.dumps(a["garbage"])]["pred"].append(a["pred"])
     arrs = list(grouped.values())
     rnd = random.Random(seed() * 37 + 16)
-    rates = [8000, 16000, 22050, 24000, 32000, 44100, 48000, 88200, 96000, 176400, 192000, 1000, 254000, 12345, 65534, 655340, 7]
+    # (every table rate; the edges of the kHz / Hz / tens-of-Hz codings incl. rates that have a shorter coding than the one the writer picks)
+    rates = [8000, 16000, 22050, 24000, 32000, 44100, 48000, 88200, 96000, 176400, 192000, 1000, 254000, 255000, 256000, 12345, 65534, 65540, 655340, 7,
+             10, 1, 11025, 37800, 64000, 352800, 100000, 65530, 2000, 300000]
     if t == "quick":
         rnd.shuffle(arrs)
         arrs = arrs[:900]
